@@ -235,9 +235,17 @@ def inputs_for(contract, limit=4000, atoms=ATOMS):
             pools.append([0, 1, 2, 3])
         elif k == 'str':
             pools.append(['a', 'b', 'zz'])
+        elif k == 'bool':
+            pools.append([False, True])
+        elif k == ('seq', 'ME'):
+            from nbdime.diff_format import op_add, op_remove, op_replace, op_patch, op_addrange
+            pools.append([[], [op_add('a', 1)], [op_remove('a'), op_replace('b', [0])], [op_patch('a', [op_addrange(0, [1])]), op_add('c', 0)]])
         elif k == 'fn':
             pools.append(PREDICATES)
-        elif k in ('E', 'ME'):
+        elif k == 'ME':
+            from nbdime.diff_format import op_add, op_remove, op_replace, op_patch, op_addrange
+            pools.append([op_add('a', 1), op_remove('b'), op_replace('a', [0]), op_patch('zz', [op_addrange(0, [1])])])
+        elif k == 'E':
             pools.append(list(gen_entries(3, atoms)))
         elif k == 'cfg':
             pools.append([None])
